@@ -195,6 +195,9 @@ func (prop) Run(line string) core.Outcome {
 	if o, ok := runProv(line, f); ok {
 		return o
 	}
+	if f[0] == "srvredir" && len(f) == 7 {
+		return runRedir(line, f)
+	}
 	if f[0] == "srvhost" && len(f) == 6 {
 		return runSrv(line, f)
 	}
